@@ -26,10 +26,16 @@ def state_case(rnd, removal=None, max_calls=10, family=None, malformed=0.07, iso
         classes.append('reciprocal')
     if rnd.random() < gen.MANY_RUNS_P:
         # LONG timeline: one pair with 18..45 separate runs of one to three instants (plus what the history had)
-        k = rnd.randint(18, 45)
+        k = rnd.choice([rnd.randint(18, 45), rnd.randint(18, 45), rnd.randint(65, 100), rnd.randint(129, 140)])
         a, b = rnd.choice([(1, 2), (2, 1), (2, 3)])
         t0 = rnd.randint(0, 3)
         long_tl = [('add', 0, a, b, t0 + 6 * i, rnd.choice([None, t0 + 6 * i + 2, t0 + 6 * i + 3])) for i in range(k)]
+        # ... followed by calls placed relative to the LATEST run: its start again (point / longer span), inside, its end + 1
+        ls = t0 + 6 * (k - 1)
+        for _ in range(rnd.randint(0, 3)):
+            s0 = ls + rnd.choice([0, 0, 1, 2, 3])
+            u_, v_ = rnd.choice([(a, b), (a, b), (b, a)])
+            long_tl.append(('add', 0, u_, v_, s0, rnd.choice([None, s0 + 1, ls + 4, ls + 6])))
         hist = [o for o in hist if not (o[0] == 'add' and {o[2], o[3]} == {a, b})][:3] + long_tl
         classes.append('many_runs')
     pre = []
